@@ -1,10 +1,92 @@
 # Read by bin/mkmanifest.  claim(id, DESIGN.md section, level text, level note) / na(id, reason)
+COMMON_NOTE = (" Trusted base: Kani/CBMC's model of Rust (dev profile: overflow checks and debug assertions on), 64-bit LE host, "
+               "serde/heapless/cobs/crc compiled in from the offline registry, kani::Arbitrary derive enumerates the corpus types. "
+               "Bounds per harness are in the evidence (samples[].bounds); nothing outside them is claimed.")
+
+claim("C01", "DESIGN.md §4 C01",
+      "Bounded model checking of the real encoder/decoder pair: one SAT query per corpus type shows, for EVERY value of that type "
+      "(whole domain of u16..u128/i16..i128, all f32/f64 bit patterns, every char, every &str/&[u8] up to 4 bytes, derived structs, "
+      "4-form enums, nesting depth 3, heapless/alloc containers, a map type) that take_from_bytes(to_slice(v) ++ tail) returns v, "
+      "the 0..=2 symbolic tail bytes and a remainder pointer exactly n bytes in; plus an entry-point matrix (5 encoders byte-identical, "
+      "3 decoders correct on those bytes). A test can only sample these domains; the solver covers them completely per instantiation.",
+      "Type shapes are a fixed corpus (Rust generics are checked per instantiation); strings/sequences <= 4 elements; 'any depth' only via "
+      "serde's generic recursion over per-kind pairs each verified for all values." + COMMON_NOTE)
+claim("C02", "DESIGN.md §4 C02",
+      "Bounded model checking against an independent encoder (SpecSer) written from spec/src/wire-format.md: for every value of each corpus "
+      "type the real to_slice output equals the specification's bytes (length and every byte) - canonical varints, zig-zag by its arithmetic "
+      "definition, LE floats, length prefixes, option tags, u32 discriminants, nothing for unit/names/arity; usize/isize == u64/i64 encodings; "
+      "serialize_seq/map(None) refused without mis-framing; collect_str (through core::fmt::write) == serialize_str of the text.",
+      "Oracle SpecSer is hand-written (trusted, ~250 lines, no postcard code). Corpus and length bounds as C01; 2-byte length prefixes only for "
+      "byte arrays of 126..=130 concrete bytes." + COMMON_NOTE)
+claim("C03", "DESIGN.md §4 C03",
+      "Bounded model checking over EVERY byte string up to L bytes (L = max varint length + 2 for each integer width; 4..8 for composites): the real "
+      "take_from_bytes::<T> agrees with a reference decoder composed from spec primitives on accept/reject, value, consumed length, remainder pointer "
+      "and - for the kinds the property names - the error kind; every strict prefix of every valid encoding fails with unexpected-end. "
+      "This quantifies over all inputs in the bound, including over-long, over-range and padded varints, which sampling cannot.",
+      "Reference decoder (spec::Rd + per-type composition) is hand-written from the spec's Canonicalization table; rejections the spec does not name "
+      "(unknown variant index, container overflow) are only required to be errors." + COMMON_NOTE)
+claim("C04", "DESIGN.md §4 C04",
+      "Bounded model checking of totality and memory safety: for every byte string up to 6..12 bytes and each target type CBMC's own checks on the compiled "
+      "code (no reachable panic/overflow, every raw-pointer dereference of de::flavors::Slice and SlidingBuffer inside a live object) hold; borrowed results lie "
+      "inside the input (inside the scratch buffer for from_io), ordered and disjoint; SeqAccess::size_hint never exceeds the bytes remaining for any claimed "
+      "length up to usize::MAX; owned results do not over-allocate; unwinding assertions bound every decoder loop by input length; any/identifier/ignored_any -> WontImplement.",
+      "Allocation clause is checked through size_hint and result capacity, not by counting allocator calls; zero-width element sequences only with claimed length <= 6; maps not claimed for the allocation clause." + COMMON_NOTE)
+claim("C05", "DESIGN.md §4 C05",
+      "Bounded model checking with the capacity as a symbolic variable: for every value, every capacity 0..=len+2 and a symbolic 24-byte backing array, "
+      "to_slice / to_slice_cobs / to_slice_crc16/32 succeed exactly when capacity >= complete output (reference COBS / bitwise CRC), return the reference bytes "
+      "at the front, leave every other byte untouched, else Err(SerializeBufferFull); CBMC pointer checks decide 'no write outside the buffer' on both paths; "
+      "heapless storage for every const capacity 0..=11; growable/Extend/Size storages agree; serialized_size exact.",
+      "Outputs <= 12 bytes; types Named, E4, u32, u64, byte arrays <= 4, unit." + COMMON_NOTE)
+claim("C06", "DESIGN.md §4 C06",
+      "Bounded model checking against a textbook COBS encoder: every message of 0..=12 bytes over the full alphabet pushed through Cobs<Slice> (0..=8 through HVec) "
+      "equals reference COBS ++ 00 with no interior zero and length n+floor(n/254)+2; values through the three COBS entry points; behaviour at the 254/508/762 "
+      "boundaries with a symbolic 6-byte window after a concrete prefix; 1..=3 back-to-back frames decoded frame-at-a-time with exact remainder pointers, last sentinel present or not.",
+      "Stated cut: in the long-run harnesses only the last 6 bytes are symbolic (prefix = concrete non-zero bytes, optionally one zero); 4..6 frames and runs > 768 not covered." + COMMON_NOTE)
+claim("C07", "DESIGN.md §4 C07",
+      "Bounded model checking over every byte string of 0..=8 bytes: from_bytes_cobs and take_from_bytes_cobs never panic or touch memory outside the buffer (CBMC checks), "
+      "return DeserializeBadEncoding exactly when an independent COBS decoder finds a code byte pointing past the frame, otherwise equal the real plain decoder applied to the "
+      "reference-decoded payload; the remainder starts one past the first frame's sentinel and bytes after it are unchanged.",
+      "Targets u16, (u8,u8), byte array, Option<u8>; inputs <= 8 bytes (quick: 6)." + COMMON_NOTE)
+claim("C08", "DESIGN.md §4 C08",
+      "Inductive step decided by bounded model checking: from ANY accumulator state satisfying the invariant (idx <= N, buf[..idx] zero-free; built through the cfg hook) "
+      "and ANY chunk, one feed/feed_ref call yields exactly what the stream model pending++chunk prescribes - Success/DeserError identical (value included) to from_bytes_cobs "
+      "on an isolated copy of the segment, remaining == the bytes after the sentinel (pointer-exact), Consumed appends exactly, consumed++remaining == chunk - and re-establishes "
+      "the invariant; new() establishes it. By induction this covers every feed history and chunking. A bounded history harness from new() through the public API cross-checks.",
+      "Capacities N in {1,2,3,4,5,8}, chunk <= N+3, T in {(), u8, u16, byte array via feed_ref}; the induction argument itself is in the harness doc-comment, not machine-checked." + COMMON_NOTE)
+claim("C09", "DESIGN.md §4 C09",
+      "Same inductive step without the 'fits' premise: for any invariant-satisfying state and any chunk no panic / out-of-bounds index is reachable (CBMC), OverFull is returned exactly "
+      "when the pending bytes plus the segment exceed N (no later than the call carrying its sentinel), idx = 0 after every sentinel and every overflow, the lexicographic progress measure "
+      "(|remaining|, idx) strictly decreases for every non-empty chunk (termination of the documented loop, N >= 1); resync: from idx = 0 with arbitrary buffer contents a well-formed frame "
+      "fed whole or split at any point is delivered; two-step harness through the documented loop.",
+      "Capacities N in {1,2,4,5,8}; chunk <= N+3." + COMMON_NOTE)
+claim("C10", "DESIGN.md §4 C10",
+      "Bounded model checking against a bit-at-a-time CRC written from catalogue parameters: for all values the framed output is plain ++ LE checksum (widths 8/16/32/64 vs the bitwise "
+      "reference, 128 vs the crc crate's one-shot), three storages agree, decoding returns value and tail; converse over EVERY byte string up to width+4 bytes: acceptance implies the consumed "
+      "bytes end in their correct checksum; every non-zero burst no longer than the width (in transmission bit order) on a fixed-length payload, and every corruption of the checksum bytes, is rejected.",
+      "Payloads <= 3 bytes (Named in thorough, best-effort); algorithms SMBUS, IBM-SDLC, XMODEM, ISCSI, ISO-HDLC, ECMA-182, XZ, CRC-82/DARC." + COMMON_NOTE)
+claim("C11", "DESIGN.md §4 C11",
+      "Bounded model checking with the transport as a nondeterministic environment modelled at the methods postcard calls (read_exact / write_all / flush): for every input string, failure offset "
+      "(or none) and scratch length, from_io/from_eio equal take_from_bytes, request from the reader exactly the message's bytes, place borrowed fields in disjoint ordered sub-ranges of the scratch "
+      "and return the unused tail, otherwise Err; two messages from one stream; writers receive exactly the plain encoding and one flush, or only a prefix and Err(SerializeBufferFull); three adapters "
+      "(std::io, embedded-io 0.4, 0.6); embedded-io's and std's default read_exact loops with nondeterministic short reads in thorough.",
+      "std's default write_all loop with short writes is outside (io::Error internals exceed CBMC's reach); inputs <= 6 bytes." + COMMON_NOTE)
+claim("C12", "DESIGN.md §4 C12",
+      "Bounded model checking over every value of each implementing type: serialized_size(v) <= POSTCARD_MAX_SIZE, with a kani::cover witness that the maximum is attained for the families "
+      "the property calls tight; all scalars, NonZero*, ranges, smart pointers, references, tuples to 6, arrays, options, results, heapless Vec/String, and the workspace derive on named/tuple/unit/generic "
+      "structs and enums with 1, 2, 127, 128, 129 variants; length-prefix width at capacities 127/128/16383/16384 for every length through the real prefix encoder.",
+      "Capacities 127..16384 are checked as prefix + len (elements not materialised); heapless 0.7 only." + COMMON_NOTE)
 claim("C13", "DESIGN.md §4 C13",
       "Bounded model checking, full value domain: for each of the 8 integer types x {le,be} a harness serialises a struct "
       "{u8, #[serde(with=fixint)] T, u8} with all three fields symbolic and the solver shows the bytes are exactly "
       "T::to_le/be_bytes between the markers and that take_from_bytes returns the value and the 1-byte symbolic tail. "
       "All 2^bits values of every width are covered by one SAT query each, which is the right level for a loop-free "
       "macro-generated adapter.",
-      "Instantiations: the 16 listed; struct position fixed (middle field). serde derive's `with` plumbing is compiled in, not re-verified.")
-for pid in ["C01","C02","C03","C04","C05","C06","C07","C08","C09","C10","C11","C12","C14","C15","C16","C17","C18","C19","C20"]:
+      "Instantiations: the 16 listed; struct position fixed (middle field). serde derive's `with` plumbing is compiled in, not re-verified." + COMMON_NOTE)
+claim("C20", "DESIGN.md §4 C20",
+      "Bounded model checking: for all values, serialize_with_flavor through Cobs, CrcModifier<u16|u32> and CrcModifier over Cobs (the only nesting the IndexMut bound allows) over "
+      "Slice / HVec / AllocVec equals the reference transformation of the plain bytes in stack order (COBS(plain ++ crc) ++ 00), undoing the layers in reverse recovers the value, and a recording "
+      "user flavour - push-only and with a try_extend override - receives exactly the plain encoding in order.",
+      "Values u16/u32 (Named best-effort); AllocVec stack best-effort." + COMMON_NOTE)
+
+for pid in ["C14","C15","C16","C17","C18","C19"]:
     na(pid, "check under construction in this session (see DESIGN.md §4 for the plan); not yet claimed")
